@@ -78,11 +78,13 @@ var capChoices = []string{"SPVF", "SPVF", "SPVF", "SPVF", "SPVF", "SPVF", "S", "
 
 func (g *gen) validation(mode1in int) (string, int) {
 	if (g.errMode == "validate" || g.errMode == "both") && g.r.Chance(1, mode1in) {
-		switch g.r.Intn(4) {
+		switch g.r.Intn(5) {
 		case 0:
 			return "plain", 1
 		case 1:
 			return "wrapped", g.r.Range(1, 3)
+		case 2:
+			return "recorded", g.r.Range(1, 3)
 		default:
 			return "multi", g.r.Range(1, 3)
 		}
@@ -101,6 +103,9 @@ func (g *gen) expr(root string, setIdx, nsets, depth int, chain []string) *ExprS
 	x := &ExprSpec{ID: fmt.Sprintf("%s.x%d", root, g.nexpr), Caps: capChoices[g.r.Intn(len(capChoices))]}
 	if has(x.Caps, 'V') {
 		x.VKind, x.VN = g.validation(3)
+	}
+	if has(x.Caps, 'P') && g.errMode == "prepare" && g.r.Chance(1, 3) {
+		x.PN = g.r.Range(1, 2)
 	}
 	if !has(x.Caps, 'S') {
 		return x
@@ -175,15 +180,17 @@ func (g *gen) dynRoot(depth int, chain []string) *RootSpec {
 
 func genRandom(r *vc.Rand) *Case {
 	g := &gen{r: r}
-	switch k := r.Intn(20); {
+	switch k := r.Intn(22); {
 	case k < 9:
 		g.errMode = "none"
 	case k < 13:
 		g.errMode = "dsl"
 	case k < 18:
 		g.errMode = "validate"
-	default:
+	case k < 20:
 		g.errMode = "both"
+	default:
+		g.errMode = "prepare"
 	}
 	n := r.Range(5, 6)
 	if r.Chance(1, 4) {
@@ -303,7 +310,13 @@ func directedCases() []*Case {
 			verrRoot(root("R1", nil, set(verr(all("R1.e"), "wrapped", 2)), set(verr(all("R1.f"), "empty", 0))), "multi", 1)),
 		// both
 		one(root("R0", nil, set(all("R0.e", Action{Op: "report", N: 1}), verr(all("R0.f"), "plain", 1)))),
+		// a validator that records its failure in the context instead of returning it
+		one(root("R0", nil, set(verr(all("R0.e"), "recorded", 2), all("R0.f")))),
+		// a Prepare that reports errors (e.g. runs a DSL with eval.Execute), nothing else fails
+		one(root("R0", nil, set(prep(all("R0.e"), 2), all("R0.f")))),
 	}
 }
+
+func prep(x *ExprSpec, n int) *ExprSpec { x.PN = n; return x }
 
 func verrRoot(r *RootSpec, kind string, n int) *RootSpec { r.VKind, r.VN = kind, n; return r }
